@@ -21,6 +21,7 @@ class Context:
             tus = build.extract(self.root, scope=scope, extra_flags=tuple(flags), only=only)
             self._progs[key] = Program(tus, self.root)
             prog = self._progs[key]
+            prog._run = self.run        # functions looked up, folded or inlined are recorded as analysed (evidence)
             from . import paths
 
             callers = {}
